@@ -528,3 +528,61 @@ body_scenario!(c08_body_run_g, 2, [(8, 3), (4, 2)], [1, 2, 2, 0], 2);
 // violation of C08, which is stated for servers that return the correct bytes of the requested range, and the wrong
 // bytes are rejected downstream by chunk verification (C04); the scenario demanded more than the property states and
 // was removed.)
+
+
+// ---------------------------------------------------------------------------
+// C17 / C07 / C08 -- the reader's ENTRY: `HttpReader::read_chunk_stream` (what `ArchiveReader::read_chunks` boxes).  The
+// step harnesses above build a ChunkReader directly; this one goes through the public entry with a chunk list in ANY
+// order and checks what the first poll asks the server for: the list must be taken as given (item i of the stream is
+// paired with descriptor i by Archive::chunk_stream, so a reader that reorders its list breaks every archive whose
+// chunks are not stored in descriptor order), the first request starts at the FIRST listed chunk and spans its
+// maximal adjacent run, and the reader's retry settings are handed on.
+// ---------------------------------------------------------------------------
+fn read_chunks_entry(sz: [usize; 3]) {
+    let o: [u64; 3] = kani::any();
+    kani::assume(o[0] < 40 && o[1] < 40 && o[2] < 40);
+    let mut chunks = Vec::with_capacity(3);
+    chunks.push(ChunkOffset::new(o[0], sz[0]));
+    chunks.push(ChunkOffset::new(o[1], sz[1]));
+    chunks.push(ChunkOffset::new(o[2], sz[2]));
+    let retries: u32 = kani::any();
+    let delay: u64 = kani::any();
+    kani::assume(delay < 100);
+    let mut reader = HttpReader::from_request(builder()).retries(retries).retry_delay(Duration::from_secs(delay));
+    unsafe {
+        rr::SCRIPTED = true;
+        rr::SCRIPT = [9; 4];
+    }
+    let mut cx = noop_cx();
+    {
+        // (`read_chunks` is `Box::pin(self.read_chunk_stream(chunks))`; polling through the `dyn Stream` makes CBMC
+        // consider every Stream implementation in the crate graph -- 150 k VCCs -- so the opaque stream is polled
+        // with static dispatch)
+        let mut stream = reader.read_chunk_stream(chunks);
+        let r = Pin::new(&mut stream).poll_next(&mut cx);
+        assert!(matches!(r, Poll::Pending));
+        std::mem::forget(stream);
+    }
+    assert!(unsafe { rr::SCRIPT_POS } == 1); // exactly one request object polled, once
+    let (off, size, rc, rd) = unsafe { rr::FIRST_POLLED };
+    let run = run_len(&o, &sz, 0, 3);
+    let lastc = run - 1;
+    assert!(off == o[0], "the first request starts at the first LISTED chunk");
+    assert!(off + size == o[lastc] + sz[lastc] as u64, "and spans exactly its maximal adjacent run");
+    assert!(rc == retries && rd == delay);
+    kani::cover!(o[1] < o[0] && o[2] < o[1]); // stored in descending order
+    kani::cover!(run == 3);
+    kani::cover!(run == 1 && o[0] > o[2]);
+    std::mem::forget(reader);
+}
+macro_rules! read_chunks_entry {
+    ($name:ident, $sz:expr) => {
+        #[kani::proof]
+        #[kani::unwind(5)]
+        fn $name() {
+            read_chunks_entry($sz);
+        }
+    };
+}
+read_chunks_entry!(c17_http_read_chunks_entry_s123, [1, 2, 3]);
+read_chunks_entry!(c17_http_read_chunks_entry_s221, [2, 2, 1]);
